@@ -125,7 +125,10 @@ class _CenterManifoldDynamicsService(_DynamicsServiceBase):
         cache_key = self.make_key("hamiltonian", degree)
 
         def _factory():
-            return self.pipeline_for_degree(degree).get_hamiltonian("center_manifold_real")
+            # Ask the shared pipeline registry for the requested degree without
+            # re-targeting this object: the degree of a centre manifold is what its
+            # user set, whether or not this Hamiltonian was already cached
+            return self._ham_pipeline.get(self.point, degree).get_hamiltonian("center_manifold_real")
         
         return self.get_or_create(cache_key, _factory)
 
